@@ -156,7 +156,7 @@ fn run_n<const N: usize>(script: &Script, keep: bool) -> Outcome {
         let (c, d) = (CREATED.with(|c| c.get()), DESTROYED.with(|c| c.get()));
         if c != d + ex.leaked && ex.fail.is_none() {
             ex.cur = script.steps.len();
-            ex.fail(cls::ZST, format!("after dropping everything: {c} elements created, {d} destructor runs"));
+            ex.fail(cls::ZST | cls::LEDGER, format!("after dropping everything: {c} elements created, {d} destructor runs"));
         }
     } else {
         for b in 0..2 {
@@ -240,7 +240,7 @@ impl<const N: usize> ZEx<N> {
                     if let Some(r) = self.call(false, || if back { b.push_back(t) } else { b.push_front(t) }) {
                         let want_some = len == N;
                         if r.is_some() != want_some {
-                            self.fail(cls::ZST, format!("{} at len {len} returned {}", st.op.name(), if r.is_some() { "Some" } else { "None" }));
+                            self.fail(cls::ZST | cls::RET, format!("{} at len {len} returned {}", st.op.name(), if r.is_some() { "Some" } else { "None" }));
                         }
                         if let Some(t) = r {
                             self.hand.push(t);
@@ -254,7 +254,7 @@ impl<const N: usize> ZEx<N> {
                     let back = st.op == Op::TryPushBack;
                     if let Some(r) = self.call(false, || if back { b.try_push_back(t) } else { b.try_push_front(t) }) {
                         if r.is_err() != (len == N) {
-                            self.fail(cls::ZST, format!("{} at len {len} returned {}", st.op.name(), if r.is_err() { "Err" } else { "Ok" }));
+                            self.fail(cls::ZST | cls::RET, format!("{} at len {len} returned {}", st.op.name(), if r.is_err() { "Err" } else { "Ok" }));
                         }
                         match r {
                             Err(t) => self.hand.push(t),
@@ -277,7 +277,7 @@ impl<const N: usize> ZEx<N> {
                         _ => b.swap_remove_front(a),
                     }) {
                         if r.is_some() != want {
-                            self.fail(cls::ZST, format!("{}({a}) at len {len} returned {}", op.name(), if r.is_some() { "Some" } else { "None" }));
+                            self.fail(cls::ZST | cls::RET, format!("{}({a}) at len {len} returned {}", op.name(), if r.is_some() { "Some" } else { "None" }));
                         }
                         if let Some(t) = r {
                             self.hand.push(t);
@@ -534,7 +534,7 @@ impl<const N: usize> ZEx<N> {
                 let (s0, s1) = b.as_slices();
                 if b.len() != l || b.is_empty() != (l == 0) || b.is_full() != (l == N) || b.iter().len() != l || s0.len() + s1.len() != l || b.capacity() != N {
                     let (bl, il) = (b.len(), b.iter().len());
-                    self.fail(cls::ZST, format!("buffer {bi}: len() {bl}, iter().len() {il}, slices {}+{}; count model says {l} (N = {N})", s0.len(), s1.len()));
+                    self.fail(cls::ZST | cls::CONTENTS, format!("buffer {bi}: len() {bl}, iter().len() {il}, slices {}+{}; count model says {l} (N = {N})", s0.len(), s1.len()));
                     break;
                 }
                 if b.front().is_some() != (l > 0) || b.back().is_some() != (l > 0) || b.get(l).is_some() || (l > 0 && b.get(l - 1).is_none()) || b.nth_back(l).is_some() {
@@ -547,7 +547,7 @@ impl<const N: usize> ZEx<N> {
             let (c, d) = (CREATED.with(|c| c.get()), DESTROYED.with(|c| c.get()));
             let live = (self.len[0] + self.len[1] + self.hand.len()) as u64;
             if c - d - self.leaked != live {
-                self.fail(cls::ZST, format!("{c} elements created, {d} destructor runs, but {live} elements are in the buffers or with the caller"));
+                self.fail(cls::ZST | cls::LEDGER, format!("{c} elements created, {d} destructor runs, but {live} elements are in the buffers or with the caller"));
             }
         }
         if self.fail.is_none() && !may_alloc && self.allocs > 0 && !self.panicked {
